@@ -19,15 +19,13 @@ theorem isSpace_translated : Generated.isSpace = isSpace := by
   decide +kernel
 
 def skipOuterK (t : Bytes) (f : Nat) : Ctl → Res (Pos × Option Pos)
-  | .next s => skipLoop t f false s.pos s.ce
-  | .enter s _ => skipLoop t f true s.pos s.ce
-  | .leave s => .ok (s.pos, s.ce)
+  | .next _ s => skipLoop t f false s.pos s.ce
+  | .enter _ s _ => skipLoop t f true s.pos s.ce
   | .ret s => .ok (s.pos, s.ce)
 
 def skipInnerK (t : Bytes) (f : Nat) : Ctl → Res (Pos × Option Pos)
-  | .next s => skipLoop t f true s.pos s.ce
-  | .enter s _ => .ok (s.pos, s.ce)
-  | .leave s => (Generated.skipSpace_after1 t s).bind (skipOuterK t f)
+  | .next lvl s => if lvl = 0 then skipLoop t f false s.pos s.ce else skipLoop t f true s.pos s.ce
+  | .enter _ s _ => .ok (s.pos, s.ce)
   | .ret s => .ok (s.pos, s.ce)
 
 theorem strncmp0_lit (s lit : Bytes) (n : Nat) (h : lit.length = n) : strncmp0 s lit n = decide (s.take n = lit) := by
@@ -55,8 +53,7 @@ theorem skipLoop_outer_translated (t : Bytes) (f : Nat) (p : Pos) (ce : Option P
             simp only [Res.ok_bind, strncmp0_lit z [33, 45, 45] 3 rfl]
             by_cases hz : z.take 3 = [33, 45, 45] <;> simp [hz, skipOuterK, isSpace]
           | _ => simp
-        · simp only [h13, h10, h60, if_false]
-          by_cases hs : isSpace c <;> simp [hs, skipOuterK]
+        · by_cases hs : isSpace c <;> simp [h13, h10, h60, hs, skipOuterK]
   | _ => simp
 
 theorem strpbrk_eq (set : Bytes) (p : UInt8 → Bool) (h : ∀ b, set.contains b = p b) (s : Bytes) :
@@ -91,12 +88,11 @@ theorem skipLoop_inner_translated (t : Bytes) (f : Nat) (p : Pos) (ce : Option P
           | _ => simp
         · by_cases h10 : c = 10
           · subst h10; simp [skipInnerK]
-          · simp only [h13, h10, if_false]
-            cases cstr t (p.pos + k + 1) with
+          · cases cstr t (p.pos + k + 1) with
             | ok z2 =>
               simp only [Res.ok_bind, strncmp0_lit z2 [45, 62] 2 rfl]
-              by_cases hz : z2.take 2 = [45, 62] <;> simp [hz, skipInnerK, skipOuterK, Generated.skipSpace_after1]
-            | _ => simp
+              by_cases hz : z2.take 2 = [45, 62] <;> simp [h13, h10, hz, skipInnerK]
+            | _ => simp [h13, h10]
       | _ => simp
   | _ => simp
 
@@ -111,9 +107,8 @@ theorem mem_eq {t : Bytes} {a n : Nat} (h : a + n ≤ t.length) : mem t a n = .o
 
 /-- continuation of the model behind one run of the loop body of `parseText` -/
 def textK (t : Bytes) (f : Nat) (start : Nat) : Ctl → Res (Bytes × Pos)
-  | .next s => (textLoop t f s.pos).bind fun q => .ok (unescape (slice t start q.pos), q)
-  | .enter s _ => .ok (s.text, s.pos)
-  | .leave s => .ok (s.text, s.pos)
+  | .next _ s => (textLoop t f s.pos).bind fun q => .ok (unescape (slice t start q.pos), q)
+  | .enter _ s _ => .ok (s.text, s.pos)
   | .ret s => .ok (s.text, s.pos)
 
 theorem textLoop_translated (t : Bytes) (f : Nat) (start : Nat) (p : Pos) (ce : Option Pos) (tok : Token) (tx : Bytes)
@@ -128,23 +123,23 @@ theorem textLoop_translated (t : Bytes) (f : Nat) (start : Nat) (p : Pos) (ce : 
     | none => simp [Generated.syntaxError, Pos.col]
     | some k =>
       simp only []
-      cases hc : peek t (p.pos + k) with
-      | ok c =>
-        simp only [Res.ok_bind]
-        by_cases h13 : c = 13
-        · subst h13
-          cases peek t (p.pos + k + 1) with
-          | ok d => by_cases hd : d = 10 <;> simp [hd, textK]
-          | _ => simp
-        · by_cases h10 : c = 10
-          · subst h10; simp [textK]
-          · simp only [h13, h10, if_false]
-            obtain ⟨hp, rfl⟩ := cstr_ok h
-            have hk1 := (idxOf_some hk).1
-            simp only [List.length_drop] at hk1
-            rw [mem_eq (by omega)]
-            simp [textK, slice]
-      | _ => simp
+      obtain ⟨hp, rfl⟩ := cstr_ok h
+      obtain ⟨hk1, hk2, _⟩ := idxOf_some hk
+      simp only [List.length_drop] at hk1
+      have hget : (t.drop p.pos).getD k 0 = t.getD (p.pos + k) 0 := by
+        simp [List.getD_eq_getElem?_getD, List.getElem?_drop]
+      rw [hget] at hk2
+      rw [peek_lt (show p.pos + k < t.length by omega)]
+      generalize t.getD (p.pos + k) 0 = c at hk2
+      have hc3 : c = 60 ∨ c = 13 ∨ c = 10 := by simpa [isTextScanStop, or_assoc] using hk2
+      simp only [Res.ok_bind]
+      rcases hc3 with rfl | rfl | rfl
+      · rw [mem_eq (by omega)]
+        simp [textK, slice]
+      · cases peek t (p.pos + k + 1) with
+        | ok d => by_cases hd : d = 10 <;> simp [hd, textK]
+        | _ => simp
+      · simp [textK]
   | _ => simp
 
 theorem nameScan_translated : Generated.readToken_scan0 = isNameByte := by
@@ -271,14 +266,14 @@ theorem Res.bind_eq_ok_iff {α β : Type} {r : Res α} {f : α → Res β} {b : 
     (r.bind f = .ok b) ↔ ∃ a, r = .ok a ∧ f a = .ok b := by
   cases r <;> simp
 
-theorem parseText_loop0_mono (t : Bytes) (start : Nat) (s s' : St)
-    (h : Generated.parseText_loop0 t start s = .ok (.next s')) : s.pos.pos ≤ s'.pos.pos := by
+theorem parseText_loop0_mono (t : Bytes) (start : Nat) (s s' : St) (lvl : Nat)
+    (h : Generated.parseText_loop0 t start s = .ok (.next lvl s')) : s.pos.pos ≤ s'.pos.pos := by
   unfold Generated.parseText_loop0 at h
   repeat' (first
     | (simp only [Res.bind_eq_ok_iff] at h; obtain ⟨_, _, h⟩ := h)
     | (split at h))
   all_goals (try (first
     | (simp [Generated.syntaxError] at h; done)
-    | (simp only [Res.ok.injEq, Ctl.next.injEq] at h; subst h; simp; try omega)))
+    | (simp only [Res.ok.injEq, Ctl.next.injEq] at h; obtain ⟨_, h⟩ := h; subst h; simp; try omega)))
 
 end Nstd.Xml
